@@ -17,7 +17,8 @@ def mcs_default(tier):
     return out
 
 
-def run_proxy_property(prop, tier, seed, fams, nquick, nthorough, rule, assumptions, mcs=mcs_default, extra_runs=None):
+def run_proxy_property(prop, tier, seed, fams, nquick, nthorough, rule, assumptions, mcs=mcs_default, extra_runs=None,
+                       level="model_checking"):
     t0 = time.time()
     vlib.go_build("proxydrv")
     viol, notes, mcres = [], [], []
@@ -73,7 +74,7 @@ def run_proxy_property(prop, tier, seed, fams, nquick, nthorough, rule, assumpti
     cov.update(extra_cov)
     for nl in notes[:20]:
         print("NOTE " + nl)
-    vlib.write_evidence(prop, tier, "model_checking", cov, time.time() - t0, len(viol), assumptions)
+    vlib.write_evidence(prop, tier, level, cov, time.time() - t0, len(viol), assumptions)
     return viol
 
 
